@@ -100,8 +100,11 @@ func TestVerifBoundedMacros(t *testing.T) {
 		{[]string{"a", "b", "c"}, "$0 + $1 * $2"},
 		{[]string{"a", "b", "c"}, "($0 - $1) * ($2 - $1)"},
 		{[]string{"a", "b", "c"}, "len([$2, $1]) + $0"},
+		{[]string{"X"}, "$0 + 1"},                  // constant-style parameter names
+		{[]string{"A", "COND"}, "if $1 { $0 } else { -$0 }"},
+		{[]string{"x"}, "$0 * 2"},                  // parameter named like a global of the program
 	}
-	argsPool := []string{"1", "x", "1 + 2", "x - 1", "2 * 3", "f(2)", "x == 1 || x > 2", "-x", "g(x) + 1", "[1,2][0]"}
+	argsPool := []string{"1", "x", "1 + 2", "x - 1", "2 * 3", "f(2)", "x == 1 || x > 2", "-x", "g(x) + 1", "[1,2][0]", "error(\"boom\")", "catch(error(\"c\")).err"}
 	prelude := "x = 3\nfunc f(n) { println(\"f called\", n); n * 10 }\nfunc g(n) { n + 100 }\n"
 	contexts := []struct{ name, before, after string }{
 		{"toplevel", "println(", ")\n"},
@@ -174,7 +177,7 @@ func TestVerifBoundedMacros(t *testing.T) {
 	}
 	_ = context.Background
 	fmt.Printf("BOUNDED evaluations=%d distinct=%d exhaustive=false bound=%q\n", evals, evals,
-		fmt.Sprintf("%d templates (0..3 parameters, each used 0..3 times) x %d argument tuples from a pool of %d expressions (calls with side effects, looser-binding operators) x %d contexts (top level, function, loop, two uses, operand position): ExpandMacros output printed, re-parsed and evaluated against the hand-substituted program", len(templates), len(argsPool), len(argsPool), len(contexts)))
+		fmt.Sprintf("%d templates (0..3 parameters, each used 0..3 times) x %d argument tuples from a pool of %d expressions (calls with side effects, looser-binding operators, error calls) x %d contexts (top level, function, loop, two uses, operand position): ExpandMacros output printed, re-parsed and evaluated against the hand-substituted program", len(templates), len(argsPool), len(argsPool), len(contexts)))
 	if fails > 0 {
 		t.Fatalf("%d failures", fails)
 	}
